@@ -209,6 +209,17 @@ def _store_array(
         else:
             return source
     else:
+        if (
+            region is None
+            and is_storage_array(target)
+            and len(target.shape) == source.ndim
+            and source.size > 0
+            and source.shape != tuple(target.shape)
+            and all(s <= t for s, t in zip(source.shape, target.shape))
+        ):
+            # a source smaller than an existing target goes into the target's leading region,
+            # so the region checks apply (no target chunk may be written partially)
+            region = tuple(slice(0, s) for s in source.shape)
         if hasattr(target, "shards"):
             sharding_enabled = target.shards is not None
             sharding_misaligned = target.shards != source.chunks
